@@ -162,14 +162,14 @@ def std_comps(comps):
     return [["Id_1", "Integer", ID], ["Id_2", "String", ID]] + [[n, "Integer" if r == ID else "Number", r] for n, r in comps]
 
 
-def clause_programs():
+def clause_programs(tier="quick"):
     progs = []
     a1 = [(k, t, R.parse_clause(t)) for k, t in clause_alphabet_1()]
     a2 = [(k, t, R.parse_clause(t)) for k, t in CLAUSES_2]
     for lab, origin, comps in structures():
         start = std_comps(comps)
         two = comps in ([("Me_1", ME), ("Mz", ME)], [("Me_1", ME), ("me_1", ME), ("Mz", ME)],
-                        [("Me_1", ME), ("me_1", ME), ("ME_1", ME), ("Mz", ME)])
+                        [("Me_1", ME), ("me_1", ME), ("ME_1", ME), ("Mz", ME)]) or tier == "thorough"
         seqs = []
         for k, t, c in a1:
             try:
@@ -286,7 +286,7 @@ def other_programs():
 
 
 def programs(tier):
-    ps = clause_programs() + other_programs()
+    ps = clause_programs(tier) + other_programs()
     seen, out = set(), []
     for p in ps:
         k = (p["script"], tuple((d.name, tuple(d.comps)) for d in p["dss"]))
@@ -370,6 +370,11 @@ def examine(script, dss, results):
             return "violation", "missing-component", "result %s is missing from the output %s" % (n, sorted(out[1]))
         exp = rel_from_engine(base[1][NEUTRAL.get(n, n)], BACK)
         diffs = judge_dataset(out[1][n], exp)
+        cols = set(out[1][n].data.columns) if out[1][n].data is not None else set()
+        lost = [c for c in exp.names() if c not in cols]
+        if lost:
+            return "violation", "missing-component", "result %s: the returned data has columns %s, component(s) %s of the renamed program's result %s are absent" % (
+                n, sorted(cols), lost, exp.names())
         if diffs:
             return "violation", kind_of(diffs), "result %s differs from the renamed program's: %s" % (n, short(diffs))
         announced = sorted(c.name for c in sem[1][n].components.values()) if n in sem[1] else None
